@@ -109,6 +109,8 @@ fn real_main() {
                 let t1 = std::time::Instant::now();
                 let xt = xtree::XTree::build(&t);
                 println!("explicit tree: {:.2}s, {} nodes", t1.elapsed().as_secs_f64(), xt.nodes.len());
+                let anon_with_field = xt.nodes.iter().filter(|n| !n.named && n.field_id != 0).count();
+                println!("anonymous nodes with a field: {}", anon_with_field);
                 let t2 = std::time::Instant::now();
                 drop(t);
                 println!("tree release: {:.2}s", t2.elapsed().as_secs_f64());
